@@ -184,3 +184,15 @@ Definition outcome_code (o : outcome) : list Z :=
 
 (* argument values as the harness writes them: floats by their binary64 pattern *)
 Definition F (bits : Z) : pyval := PFloat (sf64_of_bits bits).
+
+(* ---------------------------------------------------------------- sessions
+   Every emitting method is a function of (its arguments, the protocol version PlatformService reports at
+   the moment of the call, the client x-mode flag) and of nothing else: [run] has no other input.  The
+   translator certifies this structurally on every run (harness/trans/c08_layouts.py, state_audit: the
+   methods and the methods of their class they call read no instance attribute besides _cf / crazyflie /
+   _x_mode and class constants, and write none).  A session history on one set of objects is therefore the
+   list of its calls, each with the configuration in force when it is made, and its packets are the
+   pointwise runs. *)
+Definition step : Type := config * cmd * env.
+Definition run_session (layout : cmd -> action) (h : list step) : list outcome :=
+  map (fun st : step => let '(cf, c, en) := st in run (layout c) cf en) h.
